@@ -30,13 +30,14 @@ def root_of(t):
             return None
 
 
-def deep(nv, t, depth=0, limit=6):
-    """The term with named single-definition locals replaced by their definitions (bounded depth)."""
+def deep(nv, t, depth=0, limit=6, stop=()):
+    """The term with named single-definition locals replaced by their definitions (bounded depth);
+    locals whose index is in `stop` are kept as atoms."""
     if not isinstance(t, tuple) or not t or depth > limit:
         return t
-    if t[0] == "local" and len(nv.defs().get(t[1], [])) == 1 and not nv.partial_writes().get(t[1]):
-        return deep(nv, nv.definition(t[1]), depth + 1, limit)
-    return tuple(deep(nv, x, depth + 1, limit) if isinstance(x, tuple) else x for x in t)
+    if t[0] == "local" and t[1] not in stop and len(nv.defs().get(t[1], [])) == 1 and not nv.partial_writes().get(t[1]):
+        return deep(nv, nv.definition(t[1]), depth + 1, limit, stop)
+    return tuple(deep(nv, x, depth + 1, limit, stop) if isinstance(x, tuple) else x for x in t)
 
 
 def rpo_index(body):
